@@ -25,8 +25,9 @@ Open Scope Z_scope.
 
 Theorem C20_next_promised_trip_not_refused : forall (N : NumOps) mx (t : traveller N) j now,
   Inv mx (t_book t) -> (S j < MaxPromises)%nat ->
-  t_kept t = getp (t_book t) (S j) -> p_ts (t_kept t) <> 0 -> 0 < p_clear (t_kept t) ->
-  keqb N (p_dist (t_kept t)) (p_dist (t_kept t)) = true ->
+  p_ts (t_kept t) = p_ts (getp (t_book t) (S j)) -> p_te (t_kept t) = p_te (getp (t_book t) (S j)) ->
+  keqb N (p_dist (getp (t_book t) (S j))) (p_dist (t_kept t)) = true ->
+  p_ts (t_kept t) <> 0 -> p_clear (t_kept t) <> 0 -> 0 < p_clear (getp (t_book t) (S j)) ->
   p_ts (getp (t_book t) j) <= now ->
   ~ grounded t now.
 Proof. exact @next_promised_trip_not_grounded. Qed.
